@@ -37,7 +37,7 @@ RULE = (
     "points of two seed documents, a stride of sample truncations; thorough: all). distinct = distinct faulted "
     "byte strings; non-trivial = the faulted bytes differ from the seed document."
 )
-COMPONENTS_REAL = ["all of pdfminer reachable from high_level.extract_text / extract_pages / extract_text_to_fp(xml) / extract_text_to_fp(html) / extract_text_to_fp(output_dir) incl. ImageWriter, BMPWriter, JBIG2 reader/writer, CCITT decoder", "zlib", "the real file system under a per-case scratch directory"]
+COMPONENTS_REAL = ["all of pdfminer reachable from high_level.extract_text / extract_pages / extract_text_to_fp(xml) / extract_text_to_fp(html) / extract_text_to_fp(output_dir) / a page-by-page loop that continues after a failed page incl. ImageWriter, BMPWriter, JBIG2 reader/writer, CCITT decoder", "zlib", "the real file system under a per-case scratch directory"]
 COMPONENTS_STUB = ["Pillow is absent: export formats that need it answer with the documented ImportError", "file-size cap RLIMIT_FSIZE 64 MB (simulated full disk)", "file object: io.BytesIO", "step clock: sys.monitoring PY_START|JUMP on pdfminer code objects", "address-space cap RLIMIT_AS", "producer: sim.seeds / sim.pdfwriter"]
 ASSUMPTIONS = [
     "documented exception family = subclasses of pdfminer.psexceptions.PSException (AssertionError is a violation)",
@@ -578,6 +578,42 @@ def export_images(data):
 NOCACHE_FAULTS = ("ref", "xrefcycle", "prevloop", "xrefstmloop", "lengthref")
 
 
+def page_by_page(data):
+    """The caller's own loop over the pages, going on to the next page when one of them fails with a library error:
+    what failed once may be asked for again (shared streams, fonts, forms) and must fail the same, documented way."""
+    from pdfminer.converter import PDFPageAggregator
+    from pdfminer.layout import LAParams
+    from pdfminer.pdfdocument import PDFDocument
+    from pdfminer.pdfinterp import PDFPageInterpreter, PDFResourceManager
+    from pdfminer.pdfpage import PDFPage
+    from pdfminer.pdfparser import PDFParser
+
+    doc = PDFDocument(PDFParser(io.BytesIO(data)))
+    rm = PDFResourceManager()
+    dev = PDFPageAggregator(rm, laparams=LAParams())
+    interp = PDFPageInterpreter(rm, dev)
+    pages = PDFPage.create_pages(doc)
+    failed = None
+    for rounds in range(2):
+        while True:
+            try:
+                page = next(pages, None)
+            except PSException as e:
+                failed = e
+                break
+            if page is None:
+                break
+            for _ in range(2):  # each page twice: the second attempt sees what the first one left behind
+                try:
+                    interp.process_page(page)
+                    dev.get_result()
+                except PSException as e:
+                    failed = e
+        pages = PDFPage.create_pages(doc)
+    if failed is not None:
+        raise failed
+
+
 def entry_points(data, seed_name="", fault=None):
     if fault is not None and fault[0] in NOCACHE_FAULTS:
         # reference faults also without the object cache: loop guards must not depend on objects being cached
@@ -585,6 +621,8 @@ def entry_points(data, seed_name="", fault=None):
     if seed_name in IMAGE_SEEDS:
         yield "extract_text_to_fp(output_dir)", (lambda: export_images(data))
     yield "extract_text", (lambda: extract_text(io.BytesIO(data)))
+    if fault is not None and fault[0] != "truncate":
+        yield "page-by-page loop", (lambda: page_by_page(data))
     yield "extract_pages", (lambda: list(extract_pages(io.BytesIO(data))))
 
     def xml():
@@ -640,7 +678,8 @@ def run(tape, ctx, item=None):
     ctx.probe({"truncate": "truncation", "replace": "replace", "variant": "replace", "xrefcycle": "ref-loop", "prevloop": "ref-loop", "xrefstmloop": "ref-loop", "inline": "replace", "cdict": "replace", "ccut": "payload", "lengthref": "ref-loop", "remove": "remove", "ref": "ref-loop" if f[0] == "ref" and f[3][:3] in ("loo", "rho") else "replace", "flip": "payload", "cut": "payload", "length": "payload", "cflip": "payload", "ecut": "payload", "eflip": "payload"}[f[0]])
     outcomes = []
     for name, fn in entry_points(data, seed.name, f):
-        seams.CLOCK.start(budget)
+        # (the page-by-page loop interprets every page four times: its budget is four single passes)
+        seams.CLOCK.start(budget * (4 if name == "page-by-page loop" else 1))
         sig = None
         rss0 = resource.getrusage(resource.RUSAGE_SELF).ru_maxrss
         try:
